@@ -65,6 +65,9 @@ def _field_arguments(attribute: Attribute) -> dict[str, Any] | None:
 
 @cache
 def _dataclass_parameters(class_: Class) -> list[Parameter]:
+    # Names that are not parameters of `__init__` (class variables, fields with `init=False`)
+    # are returned as placeholders without kind: they still shadow the fields
+    # of the same name inherited from parent dataclasses.
     # Fetch `@dataclass` arguments if any.
     dec_args = _dataclass_arguments(class_.decorators)
 
@@ -86,16 +89,20 @@ def _dataclass_parameters(class_: Class) -> list[Parameter]:
             # - @property
             # - @cached_property
             # - ClassVar annotation
-            if "property" in member.labels or (
+            if "property" in member.labels:
+                continue
+            if (
                 # TODO: It is better to explicitly check for `ClassVar`, but
                 # `Visitor.handle_attribute` unwraps it from the annotation.
                 # Maybe create `internal_labels` and store "classvar" in there.
                 "class-attribute" in member.labels and "instance-attribute" not in member.labels
             ):
+                parameters.append(Parameter(member.name, kind=None))
                 continue
 
             # Bare `ClassVar` annotation (the visitor only unwraps and labels the subscripted form).
             if isinstance(member.annotation, Expr) and member.annotation.canonical_name == "ClassVar":
+                parameters.append(Parameter(member.name, kind=None))
                 continue
 
             # Start of keyword-only parameters.
@@ -110,6 +117,7 @@ def _dataclass_parameters(class_: Class) -> list[Parameter]:
 
             # Parameter not added to `__init__`, skip it.
             if field_args.get("init") == "False":
+                parameters.append(Parameter(member.name, kind=None))
                 continue
 
             # Determine parameter kind: an explicit `kw_only` argument of `field()`
@@ -145,7 +153,7 @@ def _dataclass_parameters(class_: Class) -> list[Parameter]:
 
 
 def _reorder_parameters(parameters: list[Parameter]) -> list[Parameter]:
-    # De-duplicate, overwriting previous parameters.
+    # De-duplicate, overwriting previous parameters (a field keeps the position of its first declaration).
     params_dict = {param.name: param for param in parameters}
 
     # Re-order, putting positional-only in front and keyword-only at the end.
@@ -153,6 +161,9 @@ def _reorder_parameters(parameters: list[Parameter]) -> list[Parameter]:
     pos_kw = []
     kw_only = []
     for param in params_dict.values():
+        if param.kind is None:
+            # Placeholder: not a parameter of `__init__`.
+            continue
         if param.kind is ParameterKind.positional_only:
             pos_only.append(param)
         elif param.kind is ParameterKind.keyword_only:
